@@ -2,7 +2,7 @@
     proxy/http_headers.go:150-181, uuid/format.go:36-62).
     This file contains only statements, [exact], and [Print Assumptions]. *)
 From Coq Require Import String List NArith ZArith.
-From Fabio Require Import Lib.Outcome Lib.Bytes Model.Logger Proofs.Logger.
+From Fabio Require Import Lib.Outcome Lib.Bytes Model.Logger Model.LoggerSpec Proofs.Logger Proofs.LoggerCal Proofs.LoggerFields.
 Import ListNotations.
 Local Open Scope N_scope.
 
@@ -167,3 +167,137 @@ Theorem C20_canonical_unique : forall (w : nat) (z : Z) (a b : str),
   is_dec w z a = true -> is_dec w z b = true -> a = b.
 Proof. exact is_dec_unique. Qed.
 Print Assumptions C20_canonical_unique.
+
+(* ================= the calendar (was: modelled, tested, not verified) =================
+   [days_from_civil] (Model/LoggerSpec.v) is the proleptic Gregorian day count written
+   from the leap-year rule; [civil_of_days] is the conversion the logger's time fields
+   go through.  Inverse of each other on ALL integers (no range bound): one 400-year
+   era is swept by vm_compute (146097 days, 146097 dates), both sides are 400-year
+   periodic. *)
+Theorem C20_civil_of_days_correct : forall n : Z,
+  let '(y, m, d) := civil_of_days n in
+  valid_date y m d = true /\ days_from_civil y m d = n.
+Proof. exact civil_of_days_correct. Qed.
+Print Assumptions C20_civil_of_days_correct.
+
+Theorem C20_civil_of_days_from_civil : forall y m d : Z,
+  valid_date y m d = true -> civil_of_days (days_from_civil y m d) = (y, m, d).
+Proof. exact civil_of_days_from_civil. Qed.
+Print Assumptions C20_civil_of_days_from_civil.
+
+Theorem C20_calendar_examples :
+  (days_from_civil 1970 1 1 = 0 /\ days_from_civil 2000 2 29 = 11016 /\
+   civil_of_days 11016 = (2000, 2, 29) /\ valid_date 1900 2 29 = false /\ valid_date 2024 2 29 = true /\
+   civil_of_days (-1) = (1969, 12, 31) /\ days_from_civil 2026 9 21 * 86400 + 51200 = 1790000000)%Z.
+Proof. exact calendar_examples. Qed.
+Print Assumptions C20_calendar_examples.
+
+(* what makes [days_from_civil] THE calendar rather than a formula: day 0 is 1970-01-01
+   (C20_calendar_examples), a year has 366 days exactly when it is divisible by 4 and not
+   by 100, or by 400, and the date after a valid date (next day of the month / first of
+   the next month / 1 January) is valid and has the next day number *)
+Theorem C20_year_length : forall y : Z,
+  (days_before_year (y + 1) = days_before_year y + (if is_leap y then 366 else 365))%Z.
+Proof. exact days_before_year_succ. Qed.
+Print Assumptions C20_year_length.
+
+Theorem C20_next_day_law : forall y m d : Z, valid_date y m d = true ->
+  let '(y', m', d') := next_day y m d in
+  valid_date y' m' d' = true /\ (days_from_civil y' m' d' = days_from_civil y m d + 1)%Z.
+Proof. exact next_day_law. Qed.
+Print Assumptions C20_next_day_law.
+
+(* the broken-down UTC time of an instant, as the calendar spec defines it, exists
+   (it is the model's) and is unique *)
+Theorem C20_utc_time_exists : forall e, is_utc_time (e_unix e) (e_nsec e) (tm_of e).
+Proof. exact tm_of_is_utc. Qed.
+Print Assumptions C20_utc_time_exists.
+
+Theorem C20_utc_time_unique : forall unix nsec t1 t2,
+  is_utc_time unix nsec t1 -> is_utc_time unix nsec t2 -> t1 = t2.
+Proof. exact utc_time_unique. Qed.
+Print Assumptions C20_utc_time_unique.
+
+(* ================= fields = the documented renderings ================= *)
+(* each time field is exactly its Go layout (fixed-width positional decimal fields, month
+   abbreviation, literal separators, literal "Z" / " +0000") on THE UTC time of the
+   event's instant, for every event in range, in any zone *)
+Theorem C20_time_fields_eq_layout : forall e, event_ok e = true ->
+  exists t, is_utc_time (e_unix e) (e_nsec e) t /\
+    render_field FTimeRfc e = Ok (layout_rfc3339 t) /\
+    render_field FTimeRfcMs e = Ok (layout_rfc3339_ms t) /\
+    render_field FTimeRfcUs e = Ok (layout_rfc3339_us t) /\
+    render_field FTimeRfcNs e = Ok (layout_rfc3339_ns t) /\
+    render_field FTimeCommon e = Ok (layout_common t).
+Proof. exact time_fields_eq_layout. Qed.
+Print Assumptions C20_time_fields_eq_layout.
+
+(* the numeric fields are THE canonical decimal ([renders_dec]: satisfies the predicate
+   and is the only string that does, so it equals what any correct printer prints) of the
+   number the documentation names; S.sss: whole seconds, '.', the fraction truncated *)
+Theorem C20_fields_eq_stdlib : forall e st cl,
+  event_ok e = true -> e_resp e = Some (st, cl) ->
+  renders_dec FRespStatus e st /\ renders_dec FRespBodySize e cl /\
+  ((0 <= e_unix e)%Z ->
+     let ns := (e_unix e * 1000000000 + e_nsec e)%Z in
+     renders_dec FTimeUnixNs e ns /\ renders_dec FTimeUnixUs e (ns / 1000) /\
+     renders_dec FTimeUnixMs e (ns / 1000000)) /\
+  ((0 <= e_dur e)%Z ->
+     let d := e_dur e in
+     exists S, is_dec 0 (d / 1000000000) S = true /\
+       (forall s', is_dec 0 (d / 1000000000) s' = true -> s' = S) /\
+       render_field FRespTimeMs e = Ok (S ++ [46] ++ pad_dec 3 (d mod 1000000000 / 1000000)) /\
+       render_field FRespTimeUs e = Ok (S ++ [46] ++ pad_dec 6 (d mod 1000000000 / 1000)) /\
+       render_field FRespTimeNs e = Ok (S ++ [46] ++ pad_dec 9 (d mod 1000000000))).
+Proof. exact numeric_fields_eq_stdlib. Qed.
+Print Assumptions C20_fields_eq_stdlib.
+
+(* positional digits are the canonical rendering at their width *)
+Theorem C20_pad_dec_is_dec : forall w n, (1 <= w)%nat -> (0 <= n < 10 ^ Z.of_nat w)%Z ->
+  is_dec w n (pad_dec w n) = true.
+Proof. exact pad_dec_is_dec. Qed.
+Print Assumptions C20_pad_dec_is_dec.
+
+(* the string fields are the identity on the event's strings (no quoting, no escaping);
+   host / port are the two halves hostport returns *)
+Theorem C20_string_fields_identity : forall e,
+  render_field FUpAddr e = Ok (e_upaddr e) /\ render_field FUpService e = Ok (e_upsvc e) /\
+  (exists h p, hostport (e_upaddr e) = Ok (h, p) /\
+               render_field FUpHost e = Ok h /\ render_field FUpPort e = Ok p) /\
+  (forall r, e_req e = Some r ->
+     render_field FRemoteAddr e = Ok (rq_remote r) /\
+     render_field FRequest e = Ok (rq_method r ++ [32] ++ rq_uri r ++ [32] ++ rq_proto r) /\
+     render_field FRequestHost e = Ok (rq_host r) /\ render_field FRequestMethod e = Ok (rq_method r) /\
+     render_field FRequestURI e = Ok (rq_uri r) /\ render_field FRequestProto e = Ok (rq_proto r) /\
+     exists h p, hostport (rq_remote r) = Ok (h, p) /\
+                 render_field FRemoteHost e = Ok h /\ render_field FRemotePort e = Ok p) /\
+  (e_req e = None ->
+     Forall (fun f => render_field f e = Ok [])
+            [FRemoteAddr; FRemoteHost; FRemotePort; FRequest; FRequestHost; FRequestMethod;
+             FRequestURI; FRequestProto]) /\
+  (forall u, e_requrl e = Some u ->
+     render_field FRequestArgs e = Ok (u_rawquery u) /\ render_field FRequestScheme e = Ok (u_scheme u) /\
+     render_field FRequestURL e = Ok (u_string u)) /\
+  (forall u, e_upurl e = Some u ->
+     render_field FUpReqScheme e = Ok (u_scheme u) /\ render_field FUpReqURI e = Ok (u_requri u) /\
+     render_field FUpReqURL e = Ok (u_string u)) /\
+  (e_requrl e = None -> Forall (fun f => render_field f e = Ok []) [FRequestArgs; FRequestScheme; FRequestURL]) /\
+  (e_upurl e = None -> Forall (fun f => render_field f e = Ok []) [FUpReqScheme; FUpReqURI; FUpReqURL]).
+Proof. exact string_fields_identity. Qed.
+Print Assumptions C20_string_fields_identity.
+
+(* the line: the renderings of the parsed pattern's pieces, concatenated, then one newline
+   (nothing at all when they are all empty) *)
+Theorem C20_log_line_is_concat_of_fields : forall format e p,
+  new_logger format = Ok p -> event_ok e = true ->
+  exists pieces, Forall2 (fun it s => render_item it e = Ok s) p pieces /\
+    log_line format e = Ok (match concat pieces with [] => [] | b => b ++ [10] end).
+Proof. exact log_line_is_concat_of_fields. Qed.
+Print Assumptions C20_log_line_is_concat_of_fields.
+
+(* ... and those pieces spell the format: the source texts of the pattern's items (literal
+   text, "$header." ++ name, the field's documented name) concatenate to the format string *)
+Theorem C20_new_logger_sound : forall format p,
+  new_logger format = Ok p -> concat (map item_src p) = format.
+Proof. exact new_logger_sound. Qed.
+Print Assumptions C20_new_logger_sound.
